@@ -169,6 +169,7 @@ def run(ctx):
     check_read_n(ctx, prog)
     check_file_read(ctx, prog)
     check_raw_scalars(ctx, prog)
+    check_order_members(ctx, prog)
     return __doc__.split('\n\n', 1)[1]
 
 
@@ -1130,3 +1131,68 @@ def interp_array_writer(prog, f, other_val):
             return 'bad', 'with byte order %s an array of %d elements is written as %d item(s) and item %d is %s (expected element %d%s): the bytes on the wire are not the concatenation of the elements' % (
                 nm, N, len(out), k_, desc, k_, ' byte-swapped' if val == other_val else '')
     return 'ok', 'interpreted on an array of %d distinct elements for every byte order: each element once, in order, swapped iff the order is the non-native one' % N
+
+
+
+def check_order_members(ctx, prog):
+    """C16.order: the byte order a stream object applies is the one last given to it.
+    (a) every constructor initialises the byte-order members its sibling constructors initialise (R-CTORINIT on members of type
+        Endian): an accepted socket must not start with a foreign order;
+    (b) in a class with setEndian(), every member that carries the order - a member of type Endian, or one a constructor derives
+        from an Endian argument or from such a member - and that is read outside the constructors is written by setEndian():
+        a cached flag the setter does not refresh keeps applying the order given at construction."""
+    import ctorinit
+    classes = [r for r in sorted(prog.records) if any(T(prog.records[r], fl['t']).get('enum') == 'asl::Endian' for fl in prog.records[r].get('fields', []))]
+    n_c = ctorinit.check(ctx, prog, 'C16.order', classes, want=lambda fl, t: t.get('enum') == 'asl::Endian',
+                         consequence=' - operator<< / operator>> may swap the bytes of every scalar although the stream is nominally native')
+    n_s = 0
+    for rq in classes:
+        rec = prog.records[rq]
+        setters = [f for f in prog.functions if f.get('cls') == rq and f.get('n') == 'setEndian' and f.get('body')]
+        if not setters:
+            continue
+        order = set(fl['n'] for fl in rec['fields'] if T(rec, fl['t']).get('enum') == 'asl::Endian')
+        ctors = [f for f in prog.functions if f.get('cls') == rq and f.get('kind') == 'ctor' and f.get('body') and not f.get('implicit')]
+
+        def carries(f, e):
+            for w in walk_expr(e):
+                if w.get('k') == 'var' and w.get('vk') == 'param' and T(f, T(f, w.get('t')).get('to') or w.get('t')).get('enum') == 'asl::Endian':
+                    return True
+                if w.get('k') == 'mem' and w.get('f') in order and strip_lv(w.get('e') or {}).get('k') in ('this', None):
+                    return True
+            return False
+        changed = True
+        while changed:
+            changed = False
+            for f in ctors:
+                for i_ in f.get('inits') or []:
+                    if i_.get('field') and i_.get('written') and i_['field'] not in order and i_.get('e') and carries(f, i_['e']):
+                        order.add(i_['field'])
+                        changed = True
+                for e in fn_exprs(f):
+                    if e.get('k') == 'bin' and e.get('op') == '=' and strip_lv(e['x']).get('k') == 'mem' and strip_lv(e['x']).get('f') not in order and carries(f, e['y']):
+                        order.add(strip_lv(e['x'])['f'])
+                        changed = True
+        written = set()
+        for f in setters:
+            for e in q.fn_exprs_inlined(prog, f):
+                if e.get('k') == 'bin' and e.get('op') == '=' and strip_lv(e['x']).get('k') == 'mem':
+                    written.add(strip_lv(e['x'])['f'])
+        readers = {}
+        for f in prog.functions:
+            if f.get('cls') != rq or f.get('kind') == 'ctor' or not f.get('body') or f in setters:
+                continue
+            assigned = set(id(strip_lv(e['x'])) for e in fn_exprs(f) if e.get('k') == 'bin' and e.get('op') == '=')
+            for e in fn_exprs(f):
+                if e.get('k') == 'mem' and e.get('f') in order and id(e) not in assigned:
+                    readers.setdefault(e['f'], (f, e))
+        for m in sorted(order):
+            if m not in readers:
+                continue
+            n_s += 1
+            f, e = readers[m]
+            ctx.analysed(setters[0])
+            ctx.check(m in written, 'C16.order', setters[0]['pq'], 'setEndian:refreshes order member `%s`' % m, fwhere(setters[0]), 'assigned by setEndian()',
+                      '`%s` carries the byte order (set from the order given to the constructor) and is read by %s (line %s), but setEndian() does not assign it: after a switch of the order the old one keeps being applied' % (m, f['pq'], e.get('l')))
+    ctx.floor('C16.order constructors compared', n_c, 2)
+    ctx.floor('C16.order setEndian members', n_s, 2)
